@@ -67,7 +67,7 @@ def gen_case(rng, tier, idx):
         elif kind == "irr_off" or r < 0.6:
             toggles.append({"t": "eff_wet_without_irrigation", "args": {"AppEff": rng.choice([50, 70]), "WetSurf": rng.choice([10, 50])}})
     if kind in ("harvest", "combo") and spec["crop"].get("harvest_date") is None and rng.random() < (1.0 if kind == "harvest" else 0.4):
-        toggles.append({"t": "explicit_default_harvest_date", "args": {}})
+        toggles.append({"t": "explicit_default_harvest_date", "args": {"padded": rng.random() < 0.5}})
     if not toggles:
         toggles.append(field_toggle("field"))
     return {"spec": spec, "toggles": toggles}
@@ -145,7 +145,12 @@ def apply_toggles(spec, toggles, base_node):
             tw["irr"] = {"method": m, "kwargs": kw, "schedule": sched}
         elif t == "explicit_default_harvest_date":
             if tw["crop"].get("harvest_date") is None:
-                tw["crop"]["harvest_date"] = base_node.objs.crop.harvest_date
+                hd = base_node.objs.crop.harvest_date
+                if a.get("padded"):
+                    # the same date the way a user writes it ('mm/dd' with leading zeros) instead of the model's own 'm/d'
+                    mm, dd = hd.split("/")
+                    hd = f"{int(mm):02d}/{int(dd):02d}"
+                tw["crop"]["harvest_date"] = hd
     return tw
 
 
